@@ -11,6 +11,8 @@
 (*        readme       README.txt: absent / torn / the facts it states     *)
 (*        meta         metadata.json: absent / torn / a key->value map     *)
 (* Handle mode, hlen   Array._accessmode, Array._shape[0] (cached)         *)
+(*        mmode        MetaData._accessmode (follows mode when that is      *)
+(*                     assigned; can also be set on the metadata object)   *)
 (* Control pc          program point inside a public call; one action per  *)
 (*                     file-system effect, in the order of the code        *)
 (* Ghost  ref, refmeta the NumPy / dict model the properties compare with  *)
@@ -28,10 +30,10 @@ CONSTANTS RowIds, MaxRows, RowBytes, MaxChunkLen, MaxChunks, TruncArgs,
           SetIdx, Keys, Vals, Ops, Faults, Crashes, InitLens, InitModes,
           InitMetas
 
-VARIABLES rows, tail, descr, readme, meta, mode, hlen, pc, ref, refmeta, out, ret, gone
+VARIABLES rows, tail, descr, readme, meta, mode, mmode, hlen, pc, ref, refmeta, out, ret, gone
 
 disk == <<rows, tail, descr, readme, meta, gone>>
-vars == <<rows, tail, descr, readme, meta, mode, hlen, pc, ref, refmeta, out, ret, gone>>
+vars == <<rows, tail, descr, readme, meta, mode, mmode, hlen, pc, ref, refmeta, out, ret, gone>>
 
 Idle == [op |-> "idle"]
 Raises == <<-1>>                      \* "opening raises", as a row sequence
@@ -82,7 +84,7 @@ Init == /\ \E n \in InitLens : \E r \in [1..n -> RowIds] :
                   /\ refmeta = m
                   /\ meta = IF MetaLen(m) = 0 THEN MAbsent ELSE MOk(m)
                   /\ readme = ROk(n, MetaLen(m) > 0)
-        /\ tail = 0 /\ mode \in InitModes
+        /\ tail = 0 /\ mode \in InitModes /\ mmode = mode
         /\ pc = Idle /\ out = "ok" /\ ret = 0 /\ gone = FALSE
 
 Return(o) == /\ pc' = Idle /\ out' = o
@@ -95,19 +97,19 @@ At(op, a) == pc.op = op /\ pc.at = a
 EnterUL(inc, retat) == pc' = [pc EXCEPT !.at = "ul_cache", !.inc = inc, !.ret = retat]
 UL_Cache == /\ pc.op # "idle" /\ pc.op # "crashed" /\ pc.at = "ul_cache"
             /\ hlen' = hlen + pc.inc /\ Goto("ul_jt")
-            /\ UNCHANGED <<disk, mode, ref, refmeta, out, ret>>
+            /\ UNCHANGED <<disk, mode, mmode, ref, refmeta, out, ret>>
 UL_JsonTrunc == /\ pc.op # "idle" /\ pc.op # "crashed" /\ pc.at = "ul_jt"
                 /\ descr' = DTorn /\ Goto("ul_jw")
-                /\ UNCHANGED <<rows, tail, readme, meta, mode, hlen, ref, refmeta, out, ret, gone>>
+                /\ UNCHANGED <<rows, tail, readme, meta, mode, mmode, hlen, ref, refmeta, out, ret, gone>>
 UL_JsonWrite == /\ pc.op # "idle" /\ pc.op # "crashed" /\ pc.at = "ul_jw"
                 /\ descr' = DOk(hlen) /\ Goto("ul_rt")
-                /\ UNCHANGED <<rows, tail, readme, meta, mode, hlen, ref, refmeta, out, ret, gone>>
+                /\ UNCHANGED <<rows, tail, readme, meta, mode, mmode, hlen, ref, refmeta, out, ret, gone>>
 UL_ReadmeTrunc == /\ pc.op # "idle" /\ pc.op # "crashed" /\ pc.at = "ul_rt"
                   /\ readme' = RTorn /\ Goto("ul_rw")
-                  /\ UNCHANGED <<rows, tail, descr, meta, mode, hlen, ref, refmeta, out, ret, gone>>
+                  /\ UNCHANGED <<rows, tail, descr, meta, mode, mmode, hlen, ref, refmeta, out, ret, gone>>
 UL_ReadmeWrite == /\ pc.op # "idle" /\ pc.op # "crashed" /\ pc.at = "ul_rw"
                   /\ readme' = CurStamp /\ Goto(pc.ret)
-                  /\ UNCHANGED <<rows, tail, descr, meta, mode, hlen, ref, refmeta, out, ret, gone>>
+                  /\ UNCHANGED <<rows, tail, descr, meta, mode, mmode, hlen, ref, refmeta, out, ret, gone>>
 
 (***************************************************************************)
 (* iterappend / append                                                     *)
@@ -121,7 +123,7 @@ IA_Call(cs, f, via) ==
   /\ pc' = [op |-> "ia", at |-> "checks", cs |-> cs, f |-> f, via |-> via, idx |-> 1, done |-> 0,
             inc |-> 0, ret |-> "", pre |-> rows,
             legit |-> {rows \o Flat(p) : p \in CLPrefixes(cs)}, legitmeta |-> {refmeta}]
-  /\ UNCHANGED <<disk, mode, hlen, ref, refmeta, out, ret>>
+  /\ UNCHANGED <<disk, mode, mmode, hlen, ref, refmeta, out, ret>>
 
 (* a single bad item given to append(): modelled as iterappend of one bad item *)
 IA_CallBadAppend(kd) ==
@@ -129,7 +131,7 @@ IA_CallBadAppend(kd) ==
   /\ pc' = [op |-> "ia", at |-> "checks", cs |-> <<>>, f |-> [kind |-> kd, at |-> 1], via |-> "append",
             idx |-> 1, done |-> 0, inc |-> 0, ret |-> "", pre |-> rows,
             legit |-> {rows}, legitmeta |-> {refmeta}]
-  /\ UNCHANGED <<disk, mode, hlen, ref, refmeta, out, ret>>
+  /\ UNCHANGED <<disk, mode, mmode, hlen, ref, refmeta, out, ret>>
 
 (* accessmode check, iterability check, check_arraywriteable *)
 IA_Checks == /\ At("ia", "checks")
@@ -137,7 +139,7 @@ IA_Checks == /\ At("ia", "checks")
                 ELSE IF pc.via = "noniter" THEN Return("TypeError")
                 ELSE IF hlen = 0 THEN Goto("e_next") /\ out' = out
                 ELSE Goto("next") /\ out' = out
-             /\ UNCHANGED <<disk, mode, hlen, ref, refmeta, ret>>
+             /\ UNCHANGED <<disk, mode, mmode, hlen, ref, refmeta, ret>>
 
 BadItemHere == pc.f.kind \in {"raise", "shape", "rank", "conv"} /\ pc.f.at = pc.idx
 NoMore == pc.idx > Len(pc.cs)
@@ -149,7 +151,7 @@ IA_EmptyNext ==
      ELSE IF BadItemHere THEN Return("Raises")           \* _checkarrayforappend rejects it
      ELSE IF NoMore THEN Return("ok")                     \* empty iterable: nothing to do
      ELSE Goto("e_write") /\ out' = out
-  /\ UNCHANGED <<disk, mode, hlen, ref, refmeta, ret>>
+  /\ UNCHANGED <<disk, mode, mmode, hlen, ref, refmeta, ret>>
 
 WriteFaultHere == pc.f.kind = "write" /\ pc.f.at = pc.idx
 
@@ -161,19 +163,19 @@ IA_EmptyWrite ==
           /\ Goto("e_rec") /\ UNCHANGED ref
      ELSE /\ rows' = c /\ tail' = 0 /\ ref' = ref \o c
           /\ pc' = [pc EXCEPT !.at = "ul_cache", !.inc = Len(c), !.ret = "next", !.idx = pc.idx + 1]
-  /\ UNCHANGED <<descr, readme, meta, mode, hlen, refmeta, out, ret, gone>>
+  /\ UNCHANGED <<descr, readme, meta, mode, mmode, hlen, refmeta, out, ret, gone>>
 
 (* recovery of the empty path: cut the file back to nothing, raise *)
 IA_EmptyRecover == /\ At("ia", "e_rec")
                    /\ rows' = <<>> /\ tail' = 0 /\ Return("AppendDataError")
-                   /\ UNCHANGED <<descr, readme, meta, mode, hlen, ref, refmeta, ret, gone>>
+                   /\ UNCHANGED <<descr, readme, meta, mode, mmode, hlen, ref, refmeta, ret, gone>>
 
 (* the for-loop of iterappend: next(), _checkarrayforappend, seek/tofile/flush *)
 IA_Next == /\ At("ia", "next")
            /\ IF BadItemHere THEN Goto("ul_cache_rec")
               ELSE IF NoMore THEN pc' = [pc EXCEPT !.at = "ul_cache", !.inc = pc.done, !.ret = "done"]
               ELSE Goto("write")
-           /\ UNCHANGED <<disk, mode, hlen, ref, refmeta, out, ret>>
+           /\ UNCHANGED <<disk, mode, mmode, hlen, ref, refmeta, out, ret>>
 
 IA_Write == /\ At("ia", "write")
             /\ LET c == pc.cs[pc.idx] IN
@@ -182,18 +184,18 @@ IA_Write == /\ At("ia", "write")
                     /\ Goto("ul_cache_rec") /\ UNCHANGED ref
                ELSE /\ rows' = rows \o c /\ tail' = 0 /\ ref' = ref \o c
                     /\ pc' = [pc EXCEPT !.at = "next", !.idx = pc.idx + 1, !.done = pc.done + Len(c)]
-            /\ UNCHANGED <<descr, readme, meta, mode, hlen, refmeta, out, ret, gone>>
+            /\ UNCHANGED <<descr, readme, meta, mode, mmode, hlen, refmeta, out, ret, gone>>
 
 (* except-branch: flush, _update_len(done), fd.truncate(size*itemsize), raise *)
 IA_RecStart == /\ At("ia", "ul_cache_rec")
                /\ pc' = [pc EXCEPT !.at = "ul_cache", !.inc = pc.done, !.ret = "rec_trunc"]
-               /\ UNCHANGED <<disk, mode, hlen, ref, refmeta, out, ret>>
+               /\ UNCHANGED <<disk, mode, mmode, hlen, ref, refmeta, out, ret>>
 IA_RecTruncate == /\ At("ia", "rec_trunc")
                   /\ rows' = SubSeq(rows, 1, hlen) /\ tail' = 0
                   /\ Return("AppendDataError")
-                  /\ UNCHANGED <<descr, readme, meta, mode, hlen, ref, refmeta, ret, gone>>
+                  /\ UNCHANGED <<descr, readme, meta, mode, mmode, hlen, ref, refmeta, ret, gone>>
 IA_Done == /\ At("ia", "done") /\ Return("ok")
-           /\ UNCHANGED <<disk, mode, hlen, ref, refmeta, ret>>
+           /\ UNCHANGED <<disk, mode, mmode, hlen, ref, refmeta, ret>>
 
 (* a process death in the middle of a data write leaves any prefix of it *)
 IA_WriteCrash(k, b) ==
@@ -202,7 +204,7 @@ IA_WriteCrash(k, b) ==
        /\ k * RowBytes + b < Len(c) * RowBytes
        /\ rows' = (IF pc.at = "write" THEN rows ELSE <<>>) \o SubSeq(c, 1, k) /\ tail' = b
   /\ pc' = [op |-> "crashed", legit |-> pc.legit, legitmeta |-> pc.legitmeta]
-  /\ UNCHANGED <<descr, readme, meta, mode, hlen, ref, refmeta, out, ret, gone>>
+  /\ UNCHANGED <<descr, readme, meta, mode, mmode, hlen, ref, refmeta, out, ret, gone>>
 
 (***************************************************************************)
 (* truncate_array(a, index)                                                *)
@@ -214,7 +216,7 @@ TR_Call(i) ==
      pc' = [op |-> "tr", at |-> "checks", i |-> i, inc |-> 0, ret |-> "", pre |-> rows,
             legit |-> {rows} \cup (IF 0 <= nl /\ nl < Len(rows) THEN {SubSeq(rows, 1, nl)} ELSE {}),
             legitmeta |-> {refmeta}]
-  /\ UNCHANGED <<disk, mode, hlen, ref, refmeta, out, ret>>
+  /\ UNCHANGED <<disk, mode, mmode, hlen, ref, refmeta, out, ret>>
 TR_Checks ==
   /\ At("tr", "checks")
   /\ IF mode # "r+" THEN Return("OSError")
@@ -222,15 +224,15 @@ TR_Checks ==
      ELSE LET nl == TruncLen(pc.i, descr.len) IN
           IF 0 <= nl /\ nl < hlen THEN pc' = [pc EXCEPT !.at = "os", !.inc = nl - hlen] /\ out' = out
           ELSE Return("IndexError")
-  /\ UNCHANGED <<disk, mode, hlen, ref, refmeta, ret>>
+  /\ UNCHANGED <<disk, mode, mmode, hlen, ref, refmeta, ret>>
 TR_OsTruncate ==
   /\ At("tr", "os")
   /\ rows' = SubSeq(rows, 1, hlen + pc.inc) /\ tail' = 0
   /\ ref' = SubSeq(ref, 1, hlen + pc.inc)
   /\ pc' = [pc EXCEPT !.at = "ul_cache", !.ret = "done"]
-  /\ UNCHANGED <<descr, readme, meta, mode, hlen, refmeta, out, ret, gone>>
+  /\ UNCHANGED <<descr, readme, meta, mode, mmode, hlen, refmeta, out, ret, gone>>
 TR_Done == /\ At("tr", "done") /\ Return("ok")
-           /\ UNCHANGED <<disk, mode, hlen, ref, refmeta, ret>>
+           /\ UNCHANGED <<disk, mode, mmode, hlen, ref, refmeta, ret>>
 
 (***************************************************************************)
 (* a[i] = row, accessmode assignment, reopening                            *)
@@ -242,15 +244,20 @@ SetItem(i, id) ==
      ELSE IF p = IndexErr THEN out' = "IndexError" /\ UNCHANGED <<rows, ref>>
      ELSE /\ rows' = [rows EXCEPT ![p + 1] = id] /\ ref' = [ref EXCEPT ![p + 1] = id]
           /\ out' = "ok"
-  /\ UNCHANGED <<tail, descr, readme, meta, mode, hlen, pc, refmeta, ret, gone>>
+  /\ UNCHANGED <<tail, descr, readme, meta, mode, mmode, hlen, pc, refmeta, ret, gone>>
 
 SetMode(m) == /\ pc = Idle /\ ~gone /\ "mode" \in Ops /\ m \in {"r", "r+", "w"}
-              /\ IF m = "w" THEN out' = "ValueError" /\ UNCHANGED mode
-                 ELSE mode' = m /\ out' = "ok"
+              /\ IF m = "w" THEN out' = "ValueError" /\ UNCHANGED <<mode, mmode>>
+                 ELSE mode' = m /\ mmode' = m /\ out' = "ok"
               /\ UNCHANGED <<disk, hlen, pc, ref, refmeta, ret>>
 
+(* a.metadata.accessmode = m: the metadata object alone *)
+SetMetaMode(m) == /\ pc = Idle /\ ~gone /\ "metamode" \in Ops /\ m \in {"r", "r+"}
+                  /\ mmode' = m /\ out' = "ok"
+                  /\ UNCHANGED <<disk, mode, hlen, pc, ref, refmeta, ret>>
+
 Reopen(m) == /\ pc = Idle /\ ~gone /\ "reopen" \in Ops /\ m \in {"r", "r+"}
-             /\ mode' = m /\ hlen' = descr.len /\ out' = "ok"
+             /\ mode' = m /\ mmode' = m /\ hlen' = descr.len /\ out' = "ok"
              /\ UNCHANGED <<disk, pc, ref, refmeta, ret>>
 
 (***************************************************************************)
@@ -261,7 +268,7 @@ Delete == /\ pc = Idle /\ "delete" \in Ops /\ ~gone
              ELSE /\ gone' = TRUE /\ rows' = <<>> /\ tail' = 0 /\ descr' = DTorn
                   /\ readme' = [k |-> "absent"] /\ meta' = MAbsent
                   /\ ref' = <<>> /\ refmeta' = NoMeta /\ out' = "ok"
-          /\ UNCHANGED <<mode, hlen, pc, ret>>
+          /\ UNCHANGED <<mode, mmode, hlen, pc, ret>>
 
 (***************************************************************************)
 (* metadata                                                                *)
@@ -278,13 +285,13 @@ M_Call(kd, k, v) ==
      pc' = [op |-> "m", at |-> "checks", kd |-> kd, key |-> k, v |-> v, new |-> NoMeta,
             inc |-> 0, ret |-> "",
             legit |-> {rows}, legitmeta |-> {refmeta} \cup posts]
-  /\ UNCHANGED <<disk, mode, hlen, ref, refmeta, out, ret>>
+  /\ UNCHANGED <<disk, mode, mmode, hlen, ref, refmeta, out, ret>>
 
 (* mode check, read of the file, the dict operation *)
 M_Checks ==
   /\ At("m", "checks")
   /\ LET cur == MetaOutcome IN
-     IF mode # "r+" THEN Return("OSError") /\ UNCHANGED <<refmeta, ret, gone>>
+     IF mmode # "r+" THEN Return("OSError") /\ UNCHANGED <<refmeta, ret, gone>>
      ELSE CASE pc.kd \in {"update", "setitem"} ->
                  /\ pc' = [pc EXCEPT !.at = "trunc", !.new = [cur EXCEPT ![pc.key] = pc.v], !.ret = "cb"]
                  /\ refmeta' = [cur EXCEPT ![pc.key] = pc.v] /\ UNCHANGED <<out, ret, gone>>
@@ -309,33 +316,33 @@ M_Checks ==
                  ELSE \E q \in Keys : /\ cur[q] # 0
                         /\ pc' = [pc EXCEPT !.at = "remove", !.key = q, !.new = [cur EXCEPT ![q] = 0]]
                         /\ refmeta' = [cur EXCEPT ![q] = 0] /\ ret' = cur[q] /\ out' = out
-  /\ UNCHANGED <<disk, mode, hlen, ref>>
+  /\ UNCHANGED <<disk, mode, mmode, hlen, ref>>
 
 (* after a removal: rewrite when something is left, else unlink + README *)
 M_Remove == /\ At("m", "remove")
             /\ IF MetaLen(pc.new) > 0 THEN pc' = [pc EXCEPT !.at = "trunc", !.ret = "done"]
                ELSE Goto("unlink")
-            /\ UNCHANGED <<disk, mode, hlen, ref, refmeta, out, ret>>
+            /\ UNCHANGED <<disk, mode, mmode, hlen, ref, refmeta, out, ret>>
 M_Trunc == /\ At("m", "trunc") /\ meta' = MTorn /\ Goto("write")
-           /\ UNCHANGED <<rows, tail, descr, readme, mode, hlen, ref, refmeta, out, ret, gone>>
+           /\ UNCHANGED <<rows, tail, descr, readme, mode, mmode, hlen, ref, refmeta, out, ret, gone>>
 M_Write == /\ At("m", "write") /\ meta' = MOk(pc.new) /\ Goto(pc.ret)
-           /\ UNCHANGED <<rows, tail, descr, readme, mode, hlen, ref, refmeta, out, ret, gone>>
+           /\ UNCHANGED <<rows, tail, descr, readme, mode, mmode, hlen, ref, refmeta, out, ret, gone>>
 M_Unlink == /\ At("m", "unlink") /\ meta' = MAbsent /\ Goto("cb")
-            /\ UNCHANGED <<rows, tail, descr, readme, mode, hlen, ref, refmeta, out, ret, gone>>
+            /\ UNCHANGED <<rows, tail, descr, readme, mode, mmode, hlen, ref, refmeta, out, ret, gone>>
 (* callatfilecreationordeletion = Array._update_readmetxt *)
 RM_Trunc == /\ At("m", "cb") /\ readme' = RTorn /\ Goto("cbw")
-            /\ UNCHANGED <<rows, tail, descr, meta, mode, hlen, ref, refmeta, out, ret, gone>>
+            /\ UNCHANGED <<rows, tail, descr, meta, mode, mmode, hlen, ref, refmeta, out, ret, gone>>
 RM_Write == /\ At("m", "cbw") /\ readme' = CurStamp /\ Goto("done")
-            /\ UNCHANGED <<rows, tail, descr, meta, mode, hlen, ref, refmeta, out, ret, gone>>
+            /\ UNCHANGED <<rows, tail, descr, meta, mode, mmode, hlen, ref, refmeta, out, ret, gone>>
 M_Done == /\ At("m", "done") /\ Return("ok")
-          /\ UNCHANGED <<disk, mode, hlen, ref, refmeta, ret>>
+          /\ UNCHANGED <<disk, mode, mmode, hlen, ref, refmeta, ret>>
 
 (***************************************************************************)
 (* process death                                                           *)
 (***************************************************************************)
 Crash == /\ Crashes /\ pc.op \notin {"idle", "crashed"}
          /\ pc' = [op |-> "crashed", legit |-> pc.legit, legitmeta |-> pc.legitmeta]
-         /\ UNCHANGED <<disk, mode, hlen, ref, refmeta, out, ret>>
+         /\ UNCHANGED <<disk, mode, mmode, hlen, ref, refmeta, out, ret>>
 
 Next == \/ \E cs \in ChunkLists : \E f \in FaultPlans(cs) :
              \E via \in {"append", "iterappend"} : IA_Call(cs, f, via)
@@ -350,6 +357,7 @@ Next == \/ \E cs \in ChunkLists : \E f \in FaultPlans(cs) :
         \/ \E i \in SetIdx, id \in RowIds : SetItem(i, id)
         \/ \E m \in {"r", "r+", "w"} : SetMode(m)
         \/ \E m \in {"r", "r+"} : Reopen(m)
+        \/ \E m \in {"r", "r+"} : SetMetaMode(m)
         \/ \E kd \in MKinds, k \in Keys, v \in Vals : M_Call(kd, k, v)
         \/ M_Checks \/ M_Remove \/ M_Trunc \/ M_Write \/ M_Unlink \/ RM_Trunc \/ RM_Write \/ M_Done
         \/ Delete
@@ -381,7 +389,7 @@ Meta_Model == Quiescent => /\ MetaOutcome = refmeta
 FailedAppendExact == (Quiescent /\ out = "AppendDataError") =>
                         /\ rows = ref /\ tail = 0 /\ descr = DOk(Len(ref)) /\ hlen = Len(ref)
 (* C11 *)
-ReadOnly == [][(mode = "r" /\ mode' = "r") => UNCHANGED disk]_vars
+ReadOnly == [][(mode = "r" /\ mode' = "r" /\ mmode = "r" /\ mmode' = "r") => UNCHANGED disk]_vars
 (* C17 *)
 CrashSafe == pc.op = "crashed" =>
                /\ (OpenOutcome = Raises \/ OpenOutcome \in pc.legit)
